@@ -13,7 +13,7 @@ from vlib import doubles
 
 BASE = ('SNMPv2-SMI', 'SNMPv2-TC', 'SNMPv2-CONF')
 STATUSES = ('compiled', 'untouched', 'failed', 'unprocessed', 'missing', 'borrowed')
-TEXT_FAULTS = ('empty', 'comments', 'truncated', 'lexerr', 'synerr', 'unresolved', 'dupsym')
+TEXT_FAULTS = ('empty', 'comments', 'truncated', 'lexerr', 'synerr', 'unresolved', 'dupsym', 'untyped')
 # texts that parse and pass the symbol table but cannot be code-generated (semantic defects)
 CODEGEN_FAULTS = ('ghost', 'ghostdefval', 'oidloop', 'oidself')
 # faults that make the *whole file* unusable before any module is registered
@@ -60,6 +60,10 @@ def module_text(mod, imports, src, variant='ok', tag_arc=1, extra_modules=()):
         text = head + body + 'oops OBJECT IDENTIFIER ::= { }\nEND\n'
     elif variant == 'unresolved':
         text = head + body + 'lost OBJECT IDENTIFIER ::= { noSuchParent 1 }\nEND\n'
+    elif variant == 'untyped':
+        # an object whose SYNTAX names a type defined nowhere: the symbol stays postponed for good
+        text = head + body + ('orphan OBJECT-TYPE SYNTAX NoSuchType MAX-ACCESS read-only STATUS current '
+                              'DESCRIPTION "x" ::= { %s 8 }\nEND\n' % node_name(mod))
     elif variant == 'dupsym':
         text = head + body + node + 'END\n'
     elif variant == 'ghost':
